@@ -9,7 +9,7 @@ BASE_NOTE = ("trusted: the simulator (kernel, seams, SimSlurm, SimSoftFileLock m
              "batches; sampling over seeded scenarios x schedules x faults, not enumeration")
 
 CHECKS = {
-    "C01": ("exploration", "7.1", "every batch handed to SimSlurm and every job launch of every sampled run is checked online for batch-id reuse, double placement and double launch; completed fault-free runs are checked for exactly-one placement",
+    "C01": ("exploration", "7.1", "every batch handed to SimSlurm and every job launch of every sampled run is checked online for batch-id reuse, double placement, double launch and placement of a job that already has a canceled result; completed fault-free runs are checked for exactly-one placement",
             "deterministic simulation: seeded schedule search over real jade CLI processes, exactly-once monitor at sbatch/launch seams"),
     "C02": ("exploration", "7.2", "at every job launch (HPC and local) the blockers' result rows must be on disk at that instant in linearisation order",
             "deterministic simulation: ordering invariant checked online at the launch seam"),
@@ -27,13 +27,13 @@ CHECKS = {
             "deterministic simulation: component simulation + conservation / exactly-once oracle (RefRows)"),
     "C09": ("exploration", "7.9", "status files observed at every lock-free instant at which they changed; consistency and monotonicity within an epoch",
             "deterministic simulation: state invariants + monotonicity monitor at lock-free instants"),
-    "C10": ("exploration", "7.10", "component simulation of the public Cluster API: every operation checked against a single-copy model in lock-acquisition order (promotion result, stale writes rejected with files byte-identical, fresh writes accepted); role-owner monitor in world runs",
+    "C10": ("exploration", "7.10", "component simulation of the public Cluster API: every operation checked against a single-copy model in lock-acquisition order (promotion result, stale writes rejected with files byte-identical, fresh writes accepted); writers killed between two file writes of an update, then only the safety half (no write from a copy older than the status file on disk); role-owner monitor in world runs",
             "deterministic simulation: linearizability check against a single-copy reference model"),
     "C11": ("fault_enumeration", "7.11", "pilot executions + one run per fault site of every submitter round (kill at every lock operation / external command / file mutation; sbatch, squeue, lock-acquisition and write failures at every such operation), quick: seeded sample of sites, thorough: all sites of each pilot, both lock behaviours, seeded continuations; oracles: no double submission / double launch / batch-id reuse, launch ordering, durability of result rows, normal progress after a transient squeue failure",
             "deterministic simulation with fault injection: kill-point and error-site sweep over pilot executions + random multi-fault runs"),
     "C12": ("fault_enumeration", "7.12", "seeded fault plans (sbatch failures of all kinds for drawn subsets of batches, node kills at seeded yield points of node process trees, walltime TIMEOUT, dependency cycles) followed by the documented recovery; accounting of the final results against SimSlurm / SimJobs ground truth",
             "deterministic simulation with fault injection: lost-batch fault plans + conservation oracle vs ground truth"),
-    "C13": ("exploration", "7.13", "first epoch to completion with a mix of outcomes (missing via lost batch or cancel), 1-3 resubmit-jobs with drawn flags and per-epoch exit codes; rerun set = selection + transitive dependents from the scenario DAG; launches, ordering, preserved rows, result shape; refusal on incomplete submissions incl. role stripping; failed command never leaves results erased with no way forward",
+    "C13": ("exploration", "7.13", "first epoch to completion with a mix of outcomes (missing via lost batch or cancel), 1-3 resubmit-jobs with drawn flags and per-epoch exit codes; rerun set = selection + transitive dependents from the scenario DAG; launches, ordering, preserved rows, result shape; refusal on incomplete submissions incl. role stripping; failed command (incl. a scheduler failure inside the command's own round, profile resubmit_faults) never leaves results erased with no way forward",
             "deterministic simulation: exactness of rerun set vs reference closure, preservation and refusal oracles over seeded histories"),
     "C14": ("exploration", "7.14", "cancel-jobs at a drawn moment (after n-th sbatch / launch / exit or at a time), followed by drawn commands and the documented recovery; no sbatch after the canceled flag became visible, scancel coverage against SimSlurm ground truth, results kept, missing accounted",
             "deterministic simulation: ordering invariant (no sbatch after cancel) + scancel coverage vs SimSlurm ground truth"),
